@@ -581,6 +581,13 @@ pub fn check_bytes(bytes: &[u8], opts: &Opts) -> Report {
     rep.violations.extend(gate.viol.iter().cloned());
     if let Res::Ok(d) = &gate.res {
         check_ok_digest(d, len, "ModelProto::decode(CountingReader)", &mut rep.violations);
+        // Independent strict parse: whatever the decoder accepts must be well-formed.
+        if let Err((class, why)) = crate::strict::check_model(bytes) {
+            rep.violations.push((
+                format!("ok:malformed-accepted:{class}"),
+                format!("every entry point returns Ok, but the input is not a well-formed ModelProto: {why}"),
+            ));
+        }
     }
     rep.result = Some(gate.res.clone());
 
@@ -598,6 +605,14 @@ pub fn check_bytes(bytes: &[u8], opts: &Opts) -> Report {
     rep.ran.push("is_onnx_model(counting)");
     rep.max_alloc = rep.max_alloc.max(slim.max_alloc);
     rep.violations.extend(slim.viol.iter().cloned());
+    if slim.onnx == Some(true) {
+        if let Err((class, why)) = crate::strict::check_top_level(bytes) {
+            rep.violations.push((
+                format!("ok:malformed-accepted:is_onnx_model:{class}"),
+                format!("is_onnx_model returns true, but the top-level records are not well-formed: {why}"),
+            ));
+        }
+    }
 
     // Anything beyond "a skip went past the end" means the un-metered entry
     // points may hang or abort on this input: stop here (the violation is
